@@ -152,3 +152,17 @@ func VerifSessionContext(s *Server, sid string) context.Context {
 	}
 	return withClientSession(setSessionToContext(ctx, sess), sess)
 }
+
+// VerifSessionContextSSE is VerifSessionContext for the legacy SSE server.
+func VerifSessionContextSSE(s *SSEServer, sid string) context.Context {
+	ctx := context.Background()
+	v, ok := s.sessions.Load(sid)
+	if !ok {
+		return ctx
+	}
+	sess, ok := v.(*sseSession)
+	if !ok {
+		return ctx
+	}
+	return s.createSessionContext(ctx, sess)
+}
